@@ -632,8 +632,9 @@ class FS(object):
             fs.errors.ResourceNotFound: if ``path`` does not exist.
 
         """
-        with closing(self.open(path, mode="rb")) as read_file:
-            contents = read_file.read()
+        with self._lock:
+            with closing(self.open(path, mode="rb")) as read_file:
+                contents = read_file.read()
         return contents
 
     getbytes = _new_name(readbytes, "getbytes")
@@ -1395,8 +1396,9 @@ class FS(object):
         """
         if not isinstance(contents, bytes):
             raise TypeError("contents must be bytes")
-        with closing(self.open(path, mode="wb")) as write_file:
-            write_file.write(contents)
+        with self._lock:
+            with closing(self.open(path, mode="wb")) as write_file:
+                write_file.write(contents)
 
     setbytes = _new_name(writebytes, "setbytes")
 
